@@ -9,6 +9,7 @@ import (
 	"os"
 	"sort"
 	"strings"
+	"sync/atomic"
 )
 
 // a stream generates cases (gen) and runs the implementation on one case (exec).
@@ -27,12 +28,39 @@ type ctx struct {
 	n        int
 	stats    map[string]int
 	def      stream
+	statsOut string
 }
+
+// stuck counts the calls of the library that did not return in time: each keeps a goroutine (and a core) busy
+// for good, so after a few of them the stream is cut short — the cases written so far are judged, the stuck ones
+// carry an answer no model gives
+var stuck int32
 
 // do executes one case on the implementation and emits `lhs | output`
 func (c *ctx) do(lhs string) {
 	out := execLine(c.def, lhs)
 	c.emit(lhs + " | " + out)
+	if atomic.LoadInt32(&stuck) >= 3 {
+		c.finish()
+		os.Exit(0)
+	}
+}
+
+func (c *ctx) finish() {
+	c.w.Flush()
+	if c.statsOut != "" {
+		sf, _ := os.Create(c.statsOut)
+		var ks []string
+		for k := range c.stats {
+			ks = append(ks, k)
+		}
+		sort.Strings(ks)
+		fmt.Fprintf(sf, "cases %d\n", c.n)
+		for _, k := range ks {
+			fmt.Fprintf(sf, "%s %d\n", k, c.stats[k])
+		}
+		sf.Close()
+	}
 }
 
 func execLine(def stream, lhs string) string {
@@ -110,20 +138,7 @@ func main() {
 		}
 		defer f.Close()
 	}
-	c := &ctx{w: bufio.NewWriterSize(f, 1<<20), seed: *seed, thorough: *tier == "thorough", name: name, stats: map[string]int{}, def: st}
+	c := &ctx{w: bufio.NewWriterSize(f, 1<<20), seed: *seed, thorough: *tier == "thorough", name: name, stats: map[string]int{}, def: st, statsOut: *statsOut}
 	st.gen(c)
-	c.w.Flush()
-	if *statsOut != "" {
-		sf, _ := os.Create(*statsOut)
-		var ks []string
-		for k := range c.stats {
-			ks = append(ks, k)
-		}
-		sort.Strings(ks)
-		fmt.Fprintf(sf, "cases %d\n", c.n)
-		for _, k := range ks {
-			fmt.Fprintf(sf, "%s %d\n", k, c.stats[k])
-		}
-		sf.Close()
-	}
+	c.finish()
 }
